@@ -26,7 +26,7 @@ ASSUMPTIONS = ["NumPy's in-place semantics on the same statements define 'the eq
                "constant tensors are never in-place targets here (their flag semantics are C10's)", "kinks / ill-conditioned directions skipped and counted",
                "across an epoch boundary MyGrad severs view relations (in-place updates act on a copy of the target's memory); tensors of an earlier "
                "epoch that the new epoch does not use are not observed, and a non-nulled survivor on which the new read-out does not depend may keep its stale gradient"]
-TIERS = {"quick": {"cases": 8000, "nstmts": (3, 10)}, "thorough": {"cases": 150000, "nstmts": (4, 24)}}
+TIERS = {"quick": {"cases": 8000, "nstmts": (3, 10), "bad_w": 0.3}, "thorough": {"cases": 150000, "nstmts": (4, 24), "bad_w": 0.3}}
 FLOORS = {"quick": {"fd_ok": 15000, "inplace_stmts": 3000, "epoch2_fd_ok": 4000, "epoch2_inplace_stmts": 800},
           "thorough": {"fd_ok": 75000, "inplace_stmts": 15000, "epoch2_fd_ok": 20000, "epoch2_inplace_stmts": 4000}}
 SKIP_BUDGET = {"fd": ("fd_skipped", "fd_dirs", 0.15)}
@@ -67,6 +67,7 @@ def gen_case(rng, cfg, idx):
 def run_case(case):
     prog = case["prog"]
     bws = case.get("bws") or [len(prog) - 1]
+    bad_stmts = tuple(i for i, st in enumerate(prog) if st.get("expect_raise"))    # rejected by NumPy too: not part of the reference computation
     rng = random.Random(case.get("cseed", 0))
     REG.reset()
     it = Interp("mg")
@@ -83,6 +84,14 @@ def run_case(case):
                     tg = it.env[st_["tgt"]]
                     if tg.constant and tg.base is not None and not tg.base.constant:
                         const_view_writes.append(i)
+                if st_.get("expect_raise"):
+                    # a statement NumPy itself rejects: the user catches the error and carries on (whether MyGrad rejects it too is C04's question)
+                    try:
+                        it.exec(i, st_)
+                    except Exception:
+                        cnt["rejected_stmts"] = cnt.get("rejected_stmts", 0) + 1
+                        continue
+                    return {"viol": [], "counters": {"cross_accepts_what_numpy_rejects": 1}, "skip": "accepted a statement NumPy rejects (judged by C04)"}
                 it.exec(i, st_)
         except Exception as e:
             return {"viol": [{"monitor": "mg-raised", "mech": f"mg-raises:{type(e).__name__}", "msg": f"stmt {i} (epoch {ep}): {type(e).__name__}: {e}"}]}
@@ -96,7 +105,7 @@ def run_case(case):
         M = REG.max_abs_grad
         while sh.pos <= bw:
             sh.step()
-        if sh.raised:
+        if sh.raised and any(not prog[j].get("expect_raise") for j in (sh.raised if isinstance(sh.raised, dict) else [0])):
             return {"viol": [{"monitor": "harness", "mech": "shadow-raised", "msg": repr(sh.raised)}]}
         for n, v in it.env.items():
             # (tensors of an earlier epoch that the current one does not use are not compared: whether they still see writes made
@@ -122,7 +131,7 @@ def run_case(case):
             cnt["epoch2_judged_tensors"] = cnt.get("epoch2_judged_tensors", 0) + len(names)
             cnt["epoch2_inplace_stmts"] = cnt.get("epoch2_inplace_stmts", 0) + sum(1 for st in prog[start:bw + 1] if st["k"] in ("setitem", "aug", "uout"))
         last_grads, last_names, last_M = grads, names, M
-        v1, c1 = check_grads(prog, (), sh, grads, bw, names, rng, tau=TAU, M=M, full_upto=3, nrand=1, stale_ok=stale_ok)
+        v1, c1 = check_grads(prog, bad_stmts, sh, grads, bw, names, rng, tau=TAU, M=M, full_upto=3, nrand=1, stale_ok=stale_ok)
         if v1:
             viol_ep = [bw]
         for k, x in c1.items():
@@ -143,8 +152,8 @@ def run_case(case):
         # right before the write): re-judge every tensor against that reference
         from mgverif.oracle import FD as _FD
         try:
-            fdb = _FD(prog, (), blocks=set(const_view_writes))
-            v2, _ = check_grads(prog, (), sh, last_grads, bws[len(bws) - 1] if not viol_ep else viol_ep[0], last_names, random.Random(case.get("cseed", 0)),
+            fdb = _FD(prog, bad_stmts, blocks=set(const_view_writes))
+            v2, _ = check_grads(prog, bad_stmts, sh, last_grads, bws[len(bws) - 1] if not viol_ep else viol_ep[0], last_names, random.Random(case.get("cseed", 0)),
                                 tau=TAU, M=last_M, full_upto=3, nrand=1, fd=fdb)
             if not v2:
                 for v in viol:
